@@ -195,7 +195,6 @@ Section Batch.
     constructor; try assumption.
     - unfold st'; cbn. lia.
     - unfold st'; cbn. repeat split; lia.
-    - unfold bnowrap, st'; cbn. unfold cap in *. lia.
     - intros q pcq E. unfold st' in E; cbn in E. destruct (Nat.eq_dec q p) as [->|N].
       + rewrite upd_same in E. cbn in E. inversion E; subst pcq. cbn [bpc_ok]. unfold st'; cbn.
         repeat split; try lia. intros k Hk. fold ws. apply gwrite_at. lia.
@@ -204,17 +203,17 @@ Section Batch.
     - intros q. unfold st'; cbn. destruct (Nat.eq_dec q p) as [->|N]; [rewrite upd_same; apply bv_ops0 | rewrite upd_other by exact N; apply bv_ops0].
     - intros q1 q2 pc1 pc2 a k b l N E1 E2 H1 H2. unfold st' in E1, E2; cbn in E1, E2.
       destruct (Nat.eq_dec q1 p) as [->|N1]; destruct (Nat.eq_dec q2 p) as [->|N2]; try contradiction.
-      + rewrite upd_same in E1. cbn in E1. inversion E1; subst pc1. cbn in H1. inversion H1; subst a k.
+      + rewrite upd_same in E1. cbn in E1. inversion E1; subst pc1. cbn in H1. inversion H1.
         rewrite upd_other in E2 by exact N2. pose proof (bv_pc0 q2 pc2 E2) as K.
-        destruct pc2; cbn in H2; try discriminate; inversion H2; subst; cbn [bpc_ok] in K; right; lia.
-      + rewrite upd_same in E2. cbn in E2. inversion E2; subst pc2. cbn in H2. inversion H2; subst b l.
+        destruct pc2; cbn in H2; try discriminate; inversion H2; cbn [bpc_ok] in K; right; lia.
+      + rewrite upd_same in E2. cbn in E2. inversion E2; subst pc2. cbn in H2. inversion H2.
         rewrite upd_other in E1 by exact N1. pose proof (bv_pc0 q1 pc1 E1) as K.
-        destruct pc1; cbn in H1; try discriminate; inversion H1; subst; cbn [bpc_ok] in K; left; lia.
-      + rewrite upd_other in E1 by exact N1. rewrite upd_other in E2 by exact N2. eapply bv_wdisj0; eauto.
+        destruct pc1; cbn in H1; try discriminate; inversion H1; cbn [bpc_ok] in K; left; lia.
+      + rewrite upd_other in E1 by exact N1. rewrite upd_other in E2 by exact N2. apply (bv_wdisj0 q1 q2 pc1 pc2 a k b l N E1 E2 H1 H2).
     - intros q1 q2 pc1 pc2 a k b l N E1 E2 H1 H2. unfold st' in E1, E2; cbn in E1, E2.
-      assert (A1 : q1 <> p) by (intros ->; rewrite upd_same in E1; cbn in E1; inversion E1; subst; discriminate).
-      assert (A2 : q2 <> p) by (intros ->; rewrite upd_same in E2; cbn in E2; inversion E2; subst; discriminate).
-      rewrite upd_other in E1 by exact A1. rewrite upd_other in E2 by exact A2. eapply bv_rdisj0; eauto.
+      assert (A1 : q1 <> p) by (intros Eq; rewrite Eq, upd_same in E1; cbn in E1; inversion E1 as [Ex]; rewrite <- Ex in H1; discriminate).
+      assert (A2 : q2 <> p) by (intros Eq; rewrite Eq, upd_same in E2; cbn in E2; inversion E2 as [Ex]; rewrite <- Ex in H2; discriminate).
+      rewrite upd_other in E1 by exact A1. rewrite upd_other in E2 by exact A2. apply (bv_rdisj0 q1 q2 pc1 pc2 a k b l N E1 E2 H1 H2).
     - intros j Hj. unfold st' in Hj; cbn in Hj. rewrite Hg by lia. unfold st'; cbn. apply bv_data0; exact Hj.
     - intros q r Hr. apply (res_ok_mono st st'); [unfold st'; cbn; lia | exact Hg |].
       unfold st' in Hr; cbn in Hr. destruct (Nat.eq_dec q p) as [->|N]; [rewrite upd_same in Hr; cbn in Hr; apply (bv_res0 p r Hr) | rewrite upd_other in Hr by exact N; apply (bv_res0 q r Hr)].
